@@ -44,6 +44,9 @@ pub enum Sched {
     Random { switch_ppm: u32 },
     /// PCT-style: strict priorities with `depth` priority change points
     Pct { depth: u32, est_steps: u32 },
+    /// adversarial alternation: thread i runs `quanta[i % len]` consecutive steps, then the next
+    /// runnable thread (round robin) gets the baton
+    PingPong { quanta: Vec<u32> },
 }
 
 #[derive(Clone, Copy, Debug, PartialEq, Eq)]
@@ -540,6 +543,22 @@ impl State {
                     }
                     let k = if self.ending { 0 } else { self.decide_n(K_PICK, runnable.len() as u32) as usize };
                     return Some(runnable[k]);
+                }
+                Sched::PingPong { quanta } => {
+                    if let Some(m) = me {
+                        if self.th[m].st == St::Runnable {
+                            let q = quanta[m % quanta.len().max(1)].max(1);
+                            if self.pct_streak.0 == m && self.pct_streak.1 + 1 < q {
+                                self.pct_streak.1 += 1;
+                                return Some(m);
+                            }
+                            let next = runnable.iter().copied().find(|&i| i > m).unwrap_or(runnable[0]);
+                            self.pct_streak = (next, 0);
+                            return Some(next);
+                        }
+                    }
+                    self.pct_streak = (runnable[0], 0);
+                    return Some(runnable[0]);
                 }
                 Sched::Pct { .. } => {
                     let best = runnable.iter().copied().max_by_key(|&i| (self.th[i].prio, std::cmp::Reverse(i))).unwrap();
